@@ -92,7 +92,7 @@ def node_table(run: Run):
     return out
 
 
-def run_one(lines, schedule):
+def run_one(lines, schedule, x_from=4):
     run = Run("\n".join(lines), observe=("runlog",))
     probs = []
     by_tick = collections.defaultdict(list)
@@ -101,7 +101,7 @@ def run_one(lines, schedule):
     from mc.engine_harness import apply_request
     n_items = 0
     for t in range(HORIZON):
-        if t == 4:
+        if t == x_from:
             run.set_input("In1", 2.0)
         for req in by_tick.get(t, ()):
             apply_request(run, req)
@@ -129,6 +129,14 @@ def explore_program(item):
     for sig, what in base_probs:
         out.append((sig, what, {"lines": lines, "schedule": []}))
     nontrivial = 0
+    if any(l.strip().startswith(("Watch", "Alarm")) for l in lines):
+        # other onsets of the condition, so that items of the interrupt and of the main flow start in the same tick
+        for x_from in (2, 3, 5, 6, 7, 8):
+            probs, _ = run_one(lines, (), x_from)
+            execs += 1
+            nontrivial += 1
+            for sig, what in probs:
+                out.append((sig, what, {"lines": lines, "schedule": [], "x_from": x_from}))
     if deviations:
         for t in range(1, HORIZON - 4):
             reqs = [("user", "Stop"), ("user", "Pause"), ("user", "Restart")]
@@ -159,10 +167,10 @@ def corpus(ctx):
         if ok(f):
             items.append((pgen.render(f), (not ctx.quick) or set(pgen.kinds_flat(f)) <= sub))
     if ctx.quick:
-        k3 = [k for k in KINDS3 if k != "Al"]
-        for f in pgen.forests(k3, 3, 2):
+        for f in pgen.forests(KINDS3 + ["W"], 3, 2):
             if ok(f):
-                items.append((pgen.render(f), len(f) == 1 and f[0][0] == "Wa"))   # Watch with a two-line body: with deviations
+                # deviations only for a Watch with a two-line body (Alarm programs run without deviations here)
+                items.append((pgen.render(f), len(f) == 1 and f[0][0] == "Wa" and "Al" not in pgen.kinds_flat(f)))
     else:
         for f in pgen.forests(KINDS, 3, 2):
             if ok(f):
@@ -193,8 +201,9 @@ def run(ctx):
 
 def replay(data):
     sched = tuple((t, tuple(r)) for t, r in data["schedule"])
-    probs, _ = run_one(data["lines"], sched)
-    run = execute("\n".join(data["lines"]), schedule=sched, horizon=HORIZON, observe=("runlog",), inputs={4: {"In1": 2.0}})
+    x_from = data.get("x_from", 4)
+    probs, _ = run_one(data["lines"], sched, x_from)
+    run = execute("\n".join(data["lines"]), schedule=sched, horizon=HORIZON, observe=("runlog",), inputs={x_from: {"In1": 2.0}})
     for ob in run.obs:
         rl = ob["runlog"]
         print(ob["n"], ob["state"], rl if isinstance(rl, str) else [(i["name"], i["state"], i["start"], i["end"], i["cancellable"], i["forcible"]) for i in rl])
